@@ -248,7 +248,7 @@ class Ctx:
                   "VERIF_DIR": VERIF})
         # harness temp files (generated config material, sqlite files) live under the work dir
         # and are removed after the run, so nothing accumulates in /tmp
-        tmpd = os.path.join(self.work, "tmp")
+        tmpd = os.path.join(self.work, "tmp_" + test)   # per test: harnesses may run in parallel
         os.makedirs(tmpd, exist_ok=True)
         e["TMPDIR"] = tmpd
         if env:
